@@ -3,7 +3,49 @@
 (define-fun priceDec ((r (Array Key Bytes)) (t Int) (cons Bytes) (s Str) (p Bytes)) Int
   (decMul (decMul (decFromInt (amt (Pricing_Price (pricingOf r s p)) baseDenom)) (discountByTime (pricingOf r s p) t))
           (discountByVolume (pricingOf r s p) (volOf r cons s p))))
-(define-fun priceOf ((r (Array Key Bytes)) (t Int) (cons Bytes) (s Str) (p Bytes)) Int
-  (ite (< (priceDec r t cons s p) decOne) 1 (decTrunc (priceDec r t cons s p))))
-(define-fun priceCoins ((r (Array Key Bytes)) (t Int) (cons Bytes) (s Str) (p Bytes)) (Slice Coin)
-  (newCoins (oneCoin baseDenom (priceOf r t cons s p))))
+; priceOf / priceCoins are opaque symbols with a defining axiom (instantiated only where the term occurs)
+(declare-fun priceOf ((Array Key Bytes) Int Bytes Str Bytes) Int)
+(assert (forall ((r (Array Key Bytes)) (t Int) (cons Bytes) (s Str) (p Bytes)) (! (= (priceOf r t cons s p)
+  (ite (< (priceDec r t cons s p) decOne) 1 (decTrunc (priceDec r t cons s p)))) :pattern ((priceOf r t cons s p)))))
+(declare-fun priceCoins ((Array Key Bytes) Int Bytes Str Bytes) (Slice Coin))
+(assert (forall ((r (Array Key Bytes)) (t Int) (cons Bytes) (s Str) (p Bytes)) (! (= (priceCoins r t cons s p)
+  (newCoins (oneCoin baseDenom (priceOf r t cons s p)))) :pattern ((priceCoins r t cons s p)))))
+
+; ---- eligibility filter of property C06 (recursive over the provider list, in order)
+(define-fun eligible ((r (Array Key Bytes)) (t Int) (svc Str) (timeout Int) (cap (Slice Coin)) (cons Bytes) (p Bytes)) Bool
+  (and (bindFound r svc p) (ServiceBinding_Available (bindOf r svc p)) (<= (ServiceBinding_QoS (bindOf r svc p)) (wrap_u64 timeout))
+       (isAllLTE (priceCoins r t cons svc p) cap)))
+(declare-fun filtIt ((Array Key Bytes) Int Str Int (Slice Coin) Bytes (Slice Bytes) Int) (Slice Bytes))
+(declare-fun totIt ((Array Key Bytes) Int Str Int (Slice Coin) Bytes (Slice Bytes) Int) (Slice Coin))
+(assert (forall ((r (Array Key Bytes)) (t Int) (svc Str) (to Int) (cap (Slice Coin)) (cons Bytes) (ps (Slice Bytes)))
+  (! (= (filtIt r t svc to cap cons ps 0) (mkSlice 0 zarr_Bytes)) :pattern ((filtIt r t svc to cap cons ps 0)))))
+(assert (forall ((r (Array Key Bytes)) (t Int) (svc Str) (to Int) (cap (Slice Coin)) (cons Bytes) (ps (Slice Bytes)))
+  (! (= (totIt r t svc to cap cons ps 0) (mkSlice 0 zarr_Coin)) :pattern ((totIt r t svc to cap cons ps 0)))))
+(assert (forall ((r (Array Key Bytes)) (t Int) (svc Str) (to Int) (cap (Slice Coin)) (cons Bytes) (ps (Slice Bytes)) (n Int))
+  (! (=> (> n 0) (let ((prev (filtIt r t svc to cap cons ps (- n 1))) (p (select (sarr ps) (- n 1))))
+      (= (filtIt r t svc to cap cons ps n) (ite (eligible r t svc to cap cons p) (mkSlice (+ (slen prev) 1) (store (sarr prev) (slen prev) p)) prev))))
+     :pattern ((filtIt r t svc to cap cons ps n)))))
+(assert (forall ((r (Array Key Bytes)) (t Int) (svc Str) (to Int) (cap (Slice Coin)) (cons Bytes) (ps (Slice Bytes)) (n Int))
+  (! (=> (> n 0) (let ((prev (totIt r t svc to cap cons ps (- n 1))) (p (select (sarr ps) (- n 1))))
+      (= (totIt r t svc to cap cons ps n) (ite (eligible r t svc to cap cons p) (coinsAdd prev (priceCoins r t cons svc p)) prev))))
+     :pattern ((totIt r t svc to cap cons ps n)))))
+; every listed provider with a binding quotes its price in the base denomination
+(define-fun allBase ((r (Array Key Bytes)) (svc Str) (ps (Slice Bytes))) Bool
+  (forall ((i Int)) (! (=> (and (<= 0 i) (< i (slen ps)) (bindFound r svc (select (sarr ps) i)))
+       (= (Coin_Denom (select (sarr (Pricing_Price (pricingOf r svc (select (sarr ps) i)))) 0)) baseDenom)) :pattern ((select (sarr ps) i)))))
+
+; ---- issuing the requests of a batch (InitiateRequests): one request record and two pending markers per provider
+(define-fun issuedReq ((r (Array Key Bytes)) (t Int) (h Int) (id Bytes) (c RequestContext) (cnt Int) (p Bytes)) CompactRequest
+  (mkCompactRequest id cnt p (ite (RequestContext_SuperMode c) noCoins (priceCoins r t (RequestContext_Consumer c) (RequestContext_ServiceName c) p))
+     h (wrap_i64 (+ h (RequestContext_Timeout c)))))
+(declare-fun issueIt ((Array Key Bytes) Int Int Bytes RequestContext Int (Slice Bytes) Int) (Array Key Bytes))
+(assert (forall ((r (Array Key Bytes)) (t Int) (h Int) (id Bytes) (c RequestContext) (cnt Int) (ps (Slice Bytes)))
+  (! (= (issueIt r t h id c cnt ps 0) r) :pattern ((issueIt r t h id c cnt ps 0)))))
+(assert (forall ((r (Array Key Bytes)) (t Int) (h Int) (id Bytes) (c RequestContext) (cnt Int) (ps (Slice Bytes)) (n Int))
+  (! (=> (> n 0) (let ((p (select (sarr ps) (- n 1))) (rid (mkRID id cnt h (wrap_i16 (- n 1)))))
+      (= (issueIt r t h id c cnt ps n)
+         (store (store (store (issueIt r t h id c cnt ps (- n 1))
+            (KReq rid) (enc_CompactRequest (issuedReq r t h id c cnt p)))
+            (KActB (RequestContext_ServiceName c) p (wrap_i64 (+ h (RequestContext_Timeout c))) rid) (idVal rid))
+            (KActID rid) (idVal rid)))))
+     :pattern ((issueIt r t h id c cnt ps n)))))
